@@ -491,10 +491,16 @@ pub fn check(ctx: &Ctx) -> Vec<PartReport> {
             ],
         },
     ));
+    if ctx.tier == crate::engine::Tier::Thorough && !ctx.stop.load(std::sync::atomic::Ordering::Relaxed) {
+        out.push(crate::fuzz::run(ctx, "C08", "target_name", (3_000_000f64 * ctx.scale) as u64, 256));
+    }
     out
 }
 
 pub fn replay(_ctx: &Ctx, part: &str, case: &Value) -> Outcome {
+    if let Some(t) = part.strip_prefix("fuzz:") {
+        return crate::fuzz::replay(t, case["input_hex"].as_str().unwrap_or(""));
+    }
     match part {
         "transfers" => crate::engine::replay_case::<TransferCase>(case, transfer_prop),
         _ => crate::engine::replay_case::<NameCase>(case, name_prop),
